@@ -251,6 +251,48 @@ theorem transportParams_inv {c : Conn} (h : Inv c) (tp : TP) (hm : tp.monotone c
   · simp [transportParams]; cases hv : tp.maxStreamsUni <;> simp; exact h3 _ hv
   · simp [transportParams]; cases hv : tp.maxData <;> simp; exact h1 _ hv
 
+/-- the comparison with the remembered values is performed: the code with the fix
+    `client refuses transport parameters reduced after accepted 0-RTT data`, on the
+    handshake parameters of a server that accepted this client's early data -/
+def TP.guarded (c : Conn) (tp : TP) : Prop := tp.checked = true ∧ c.quirks.acceptReducedParams = false
+
+theorem TP.monotone_of_not_reduced {c : Conn} {tp : TP} (h : tp.reduced c = false) : tp.monotone c := by
+  unfold TP.reduced at h
+  simp only [Bool.or_eq_false_iff, decide_eq_false_iff_not, Nat.not_lt] at h
+  obtain ⟨⟨⟨⟨⟨h1, _⟩, _⟩, _⟩, h5⟩, h6⟩ := h
+  refine ⟨?_, ?_, ?_⟩
+  · intro v hv; rw [hv] at h1; exact h1
+  · intro v hv; rw [hv] at h5; exact h5
+  · intro v hv; rw [hv] at h6; exact h6
+
+/-- what `_parse_transport_parameters` does when the check is performed: it
+    refuses (nothing changes) or the parameters are not below the remembered ones -/
+theorem rxTransportParams_guarded {c : Conn} {tp : TP} (hg : tp.guarded c) :
+    ((rxTransportParams c tp) = (c, Out.connError PROTOCOL_VIOLATION) ∧ tp.reduced c = true) ∨
+    ((rxTransportParams c tp) = (transportParams c tp, {}) ∧ tp.reduced c = false) := by
+  unfold rxTransportParams
+  cases hr : tp.reduced c
+  · right; simp
+  · left; simp [hg.1, hg.2]
+
+theorem rxTransportParams_cases (c : Conn) (tp : TP) :
+    rxTransportParams c tp = (c, Out.connError PROTOCOL_VIOLATION) ∨
+    rxTransportParams c tp = (transportParams c tp, {}) := by
+  unfold rxTransportParams; split
+  · exact .inl rfl
+  · exact .inr rfl
+
+theorem rxTransportParams_inv {c : Conn} (h : Inv c) (tp : TP) (hwf : tp.guarded c ∨ tp.monotone c) :
+    Inv (rxTransportParams c tp).1 := by
+  rcases hwf with hg | hm
+  · rcases rxTransportParams_guarded hg with ⟨he, _⟩ | ⟨he, hr⟩
+    · rw [he]; exact h
+    · rw [he]; exact transportParams_inv h tp (TP.monotone_of_not_reduced hr)
+  · unfold rxTransportParams
+    split
+    · exact h
+    · exact transportParams_inv h tp hm
+
 theorem rxMaxStreamData_inv {c : Conn} (h : Inv c) (sid v : Nat) : Inv (rxMaxStreamData c sid v).1 := by
   unfold rxMaxStreamData
   split
